@@ -342,3 +342,232 @@ def run(ctx):
             v = ctx.og(ws).of_operand(ws.term(fa[0])["args"][1])
             ok = v.k == "param" and v.a[0] == 2
         ctx.ob("R-C17.4", ws, "counter-raised-by-pool-size", ok, "active_thread_counter += pool_size before spawning" if ok else "the thread counter is not raised by the number of spawned workers")
+
+    # ---- R-C17.5 a handle that outlives the database cannot re-create the ownership cycle that DatabaseInner::drop broke.
+    # Queued worker messages and flush tasks own keyspace handles; a keyspace handle owns the database lock.  If a handle
+    # (strongly) owns a queue whose items own handles, a message queued AFTER the drop drained the queues keeps the lock
+    # alive forever: handle -> queue -> message -> handle.  So: (a) no strong flume::Sender whose item type owns a Keyspace
+    # is owned by KeyspaceInner, except (b) the flush queue, which refuses tasks once the drop has cleared it.
+    owns = _ownership_closure(F, "keyspace::KeyspaceInner")
+    n_send = 0
+    for adt, fld, ty in owns:
+        for snd in _senders_in(ty):
+            item_owns_handle = "keyspace::Keyspace" in snd or any("keyspace::Keyspace" in t_ for a_, f_, t_ in _ownership_closure(F, None, seed_ty=snd))
+            if not item_owns_handle:
+                continue
+            n_send += 1
+            closable = adt == "flush::manager::FlushManager"
+            ctx.ob("R-C17.5", adt, "strong-sender-%s-owned-by-keyspace-handles" % fld, closable,
+                   "%s.%s : %s is the flush queue, closed by DatabaseInner::drop (see refuses-after-clear)" % (adt, fld, ty) if closable else
+                   "%s.%s : %s — every Keyspace handle strongly owns a queue whose items own Keyspace handles: a message queued through a handle that outlives the database (a writer racing the drop, a rotation through the surviving handle) is never consumed and keeps handle, lock file and journal alive: every later open of the directory fails with Locked" % (adt, fld, ty),
+                   nontrivial=True)
+    ctx.floor("R-C17.5", "strong senders of handle-owning items reachable from KeyspaceInner", n_send, 1)
+    fm_clear = ctx.fn("flush::manager::FlushManager::clear", "R-C17.5")
+    fm_enq = ctx.fn("flush::manager::FlushManager::enqueue", "R-C17.5")
+    if fm_clear and fm_enq:
+        st = [b for b, t in fm_clear.calls() if A.cname(t) == "std::sync::atomic::Atomic::<bool>::store" and (t["args"][1].get("const") or {}).get("val") is True]
+        dr = [b for b, t in fm_clear.calls() if A.cname(t).endswith("Receiver::<T>::drain")]
+        ok = bool(st) and bool(dr) and all(A.dominates(fm_clear, st[0], d) for d in dr)
+        ctx.ob("R-C17.5", fm_clear, "clear-closes-before-draining", ok, "FlushManager::clear sets the closed flag, then drains" if ok else
+               "FlushManager::clear does not close the queue before draining it: a task enqueued right after the drain is never dequeued and keeps its keyspace handle (and the database lock) alive")
+        loads = [b for b, t in fm_enq.calls() if A.cname(t) == "std::sync::atomic::Atomic::<bool>::load"]
+        sends = [b for b, t in fm_enq.calls() if A.cname(t).endswith("Sender::<T>::send")]
+        ok = False
+        detail = "FlushManager::enqueue does not consult the closed flag"
+        if loads and sends:
+            first = [l for l in loads if A.dominates(fm_enq, l, sends[0])]
+            after = [l for l in loads if A.dominates(fm_enq, sends[0], l)]
+            ok1 = False
+            for l in first:
+                sw = A.switch_after_call(fm_enq, l)
+                if sw is not None:
+                    zero, true_t = A.bool_edges(fm_enq, sw)
+                    ok1 = ok1 or (bool(true_t) and sends[0] not in A.reach(fm_enq, true_t))
+            ok2 = False
+            drains = [b for b, t in fm_enq.calls() if A.cname(t).endswith("Receiver::<T>::drain")]
+            for l in after:
+                sw = A.switch_after_call(fm_enq, l)
+                if sw is not None:
+                    zero, true_t = A.bool_edges(fm_enq, sw)
+                    r = A.reach(fm_enq, true_t, avoid=drains)
+                    ok2 = ok2 or (bool(drains) and not [x for x in fm_enq.return_blocks() if x in r])
+            ok = ok1 and ok2
+            detail = "enqueue refuses on a closed queue, and re-checks after sending (a close in between drains the task again)" if ok else \
+                ("enqueue sends although the queue is closed" if not ok1 else "enqueue does not re-check the closed flag after sending: a clear() between the check and the send leaves the task (and its keyspace handle) in the queue forever")
+        ctx.ob("R-C17.5", fm_enq, "refuses-after-clear", ok, detail)
+
+    # ---- R-C17.6 a populated folder without version marker is refused, not initialised on top: Database::create_new is reached
+    # only when the folder holds nothing of a database (lock file, keyspaces folder, journal)
+    cor = ctx.fn("db::Database::create_or_recover", "R-C17.6")
+    if cor:
+        cn = R.call_blocks(cor, ("db::Database::create_new",))
+        hd = R.call_blocks(cor, ("db::Database::holds_database_files",))
+        ok = False
+        detail = "create_or_recover never asks whether the folder already holds database files before it calls create_new"
+        if cn and hd and all(A.dominates(cor, hd[0], c) for c in cn):
+            rf = A.result_flow(cor, hd[0])
+            okb = list(rf.ok_blocks) or cor.succs(hd[0])
+            # the bool payload is switched on: find the first bool switch after the call
+            sw = None
+            for x in sorted(A.reach(cor, okb)):
+                t_ = cor.term(x)
+                if t_["k"] == "switch" and t_.get("dty") == "bool":
+                    tm = ctx.og(cor).of_operand(t_["d"])
+                    if any(y.k == "call" and y.a[0] == "db::Database::holds_database_files" for y in A.walk(tm)):
+                        sw = x
+                        break
+            if sw is not None:
+                zero, true_t = A.bool_edges(cor, sw)
+                ok = bool(true_t) and not any(c in A.reach(cor, true_t) for c in cn) and not any(c in A.reach(cor, rf.err_blocks) for c in cn)
+                detail = "create_new is reached only on the edge where holds_database_files() answered false" if ok else "create_new is reachable although holds_database_files() answered true (or failed)"
+        ctx.ob("R-C17.6", cor, "populated-folder-without-marker-is-not-initialised", ok,
+               detail if ok else detail + ": a database folder whose version marker went missing is initialised as a NEW database on top of the existing files (new journal, new marker, the old keyspaces no longer listed)",
+               cor.loc(cn[0]) if cn else "")
+    hdf = ctx.fn("db::Database::holds_database_files", "R-C17.6")
+    if hdf:
+        cs = _string_consts(F, hdf)
+        # what Database::create_new lays out (names taken from create_new itself, not from this rule)
+        cnf = ctx.fn("db::Database::create_new", "R-C17.6")
+        laid = {}
+        if cnf:
+            ogc = ctx.og(cnf)
+            for b, t in cnf.calls():
+                n = A.cname(t)
+                role = "lock" if n == "locked_file::LockedFileGuard::create_new" else "journal" if n == "journal::Journal::create_new" else \
+                    "folder" if n == "std::fs::create_dir_all" else None
+                if role and t["args"]:
+                    for c in A.consts_in(ogc.of_operand(t["args"][0])):
+                        v = _const_str(c)
+                        if v:
+                            laid.setdefault(role, set()).add(v.rsplit(".", 1)[-1] if role == "journal" else v)
+        # each name must DECIDE: a switch on a comparison mentioning it whose true edge answers Ok(true)
+        ogh = ctx.og(hdf)
+        true_ret = [b for b, blk in enumerate(hdf.blocks) if not blk["cleanup"] for st_ in blk["s"]
+                    if st_["rv"]["k"] == "agg" and st_["rv"].get("variant") == "Ok" and any((o.get("const") or {}).get("val") is True for o in st_["rv"]["ops"])]
+        deciding = {}
+        for b, blk in enumerate(hdf.blocks):
+            t_ = blk["t"]
+            if blk["cleanup"] or t_["k"] != "switch" or t_.get("dty") != "bool":
+                continue
+            tm = ogh.of_operand(t_["d"])
+            names_here = set()
+            for x in A.walk(tm):
+                if x.k == "const":
+                    v = _const_str(x.a)
+                    if v:
+                        names_here.add(v)
+                if x.k == "closure":
+                    g_ = F.fns.get(x.a[0])
+                    if g_:
+                        names_here |= _string_consts(F, g_)
+            zero, true_t = A.bool_edges(hdf, b)
+            neg = False
+            while tm.k == "un" and tm.a[0] == "Not":
+                neg = not neg
+                tm = tm.a[1]
+            yes = zero if neg else true_t
+            if any(tr in A.reach(hdf, yes) for tr in true_ret):
+                for nm in names_here:
+                    deciding[nm] = True
+        need = {}
+        for role, names in laid.items():
+            for nm in names:
+                need["%s:%s" % (role, nm)] = nm in cs and deciding.get(nm, False)
+        ok = all(need.values()) and len(laid) >= 3 and bool(true_ret)
+        ctx.ob("R-C17.6", hdf, "recognises-lock-keyspaces-and-journals", ok,
+               "the lock file, the keyspaces folder and *.jnl files count as database files" if ok else "not recognised as database files: %s" % ", ".join(k for k, v in need.items() if not v))
+
+
+def _strip_weak(ty):
+    """remove Weak<..> / WeakSender<..> sub-terms (they do not own)"""
+    out = ty
+    for head in ("std::sync::Weak<", "flume::WeakSender<", "std::rc::Weak<"):
+        while head in out:
+            i = out.index(head)
+            j = i + len(head)
+            depth = 1
+            while j < len(out) and depth:
+                depth += out[j] == "<"
+                depth -= out[j] == ">"
+                j += 1
+            out = out[:i] + "()" + out[j:]
+    return out
+
+
+def _senders_in(ty):
+    """item types X of every strong flume::Sender<X> inside the type string"""
+    out = []
+    ty = _strip_weak(ty)
+    head = "flume::Sender<"
+    k = 0
+    while head in ty[k:]:
+        i = ty.index(head, k)
+        j = i + len(head)
+        depth = 1
+        while j < len(ty) and depth:
+            depth += ty[j] == "<"
+            depth -= ty[j] == ">"
+            j += 1
+        out.append(ty[i + len(head):j - 1])
+        k = j
+    return out
+
+
+def _ownership_closure(F, root, seed_ty=None):
+    """(adt, field, type) triples owned (strongly) from ADT `root`, following crate ADTs named inside field types"""
+    import re
+    seen = set()
+    out = []
+    work = []
+    if root:
+        work.append(root)
+    if seed_ty:
+        work += [n for n in re.findall(r"[A-Za-z_][A-Za-z0-9_]*(?:::[A-Za-z_][A-Za-z0-9_]*)+", _strip_weak(seed_ty)) if n in F.adts]
+        if seed_ty in F.adts:
+            work.append(seed_ty)
+    while work:
+        a = work.pop()
+        if a in seen or a not in F.adts:
+            continue
+        seen.add(a)
+        for v in F.adts[a]["variants"]:
+            for f in v["fields"]:
+                ty = _strip_weak(f["ty"])
+                out.append((a, f["n"], ty))
+                for n in re.findall(r"[A-Za-z_][A-Za-z0-9_]*(?:::[A-Za-z_][A-Za-z0-9_]*)+", ty):
+                    if n in F.adts and n not in seen:
+                        work.append(n)
+    return out
+
+
+def _const_str(c):
+    if isinstance(c, (list, tuple)) and len(c) == 2:
+        if c[0] == "str":
+            return c[1]
+        if c[0] == "bytes":
+            try:
+                return bytes(c[1]).decode()
+            except Exception:
+                return None
+    return None
+
+
+def _string_consts(F, fn):
+    """string constants mentioned by fn and its closures"""
+    out = set()
+    fns = [fn] + [g for gid, g in F.fns.items() if gid.startswith(fn.id + "::{closure")]
+    for g in fns:
+        og = A.Origins(g)
+        for b, t in g.calls():
+            for a in t["args"]:
+                for c in A.consts_in(og.of_operand(a)):
+                    v = _const_str(c)
+                    if v:
+                        out.add(v)
+        for blk in g.blocks:
+            for st_ in blk["s"]:
+                for c in A.consts_in(og.of_rvalue(st_["rv"])):
+                    v = _const_str(c)
+                    if v:
+                        out.add(v)
+    return out
